@@ -320,10 +320,14 @@ class MultipartEncoder:
             self.state = State.DATA_START
             return data
         elif isinstance(event, Data) and self.state == State.DATA_START:
-            self.state = State.DATA
             if len(event.data) > 0:
+                self.state = State.DATA
                 return b"\r\n" + event.data
             else:
+                # The blank line that ends the headers is still to be
+                # written if more data follows an empty first chunk.
+                if not event.more_data:
+                    self.state = State.DATA
                 return event.data
         elif isinstance(event, Data) and self.state == State.DATA:
             return event.data
